@@ -194,6 +194,12 @@ def match_rules(R, oids):
                     probs.append(('a constraint none of whose options holds does not fail the check', O.ast))
                 if not sat_false or not all(cc.cfg.dominates(O, n) for n in sat_false) or any(not cc.cfg.path_exists(O, n) for n in sat_false):
                     probs.append(('the per-constraint flag is not reset for each constraint', O.ast))
+                # the option loop is left early only after an option held (otherwise later options are never tried)
+                brks = [n for n in cc.cfg.nodes if n.kind == 'stmt' and isinstance(n.ast, ast.Break)]
+                r_nosat = cc.cfg.reachable(removed_nodes={n.id for n in sat_true})
+                for b in brks:
+                    if b.id in r_nosat:
+                        probs.append(('the option loop can stop after an option that did not hold: the remaining options are never tried', b.ast))
                 # each `satisfied = True` is under a comparison of the component with the option
                 for n in sat_true:
                     guards = []
